@@ -216,7 +216,9 @@ impl ParsedFields<'_, '_> {
 
     fn render_source_as_enum_variant_match_arm(&self) -> Option<TokenStream> {
         let source = self.source?;
-        let pattern = self.data.matcher(&[source], &[quote! { source }]);
+        let pattern = self
+            .data
+            .matcher(&[self.data.field_indexes[source]], &[quote! { source }]);
         let expr = render_some(quote! { source });
         Some(quote! { #pattern => #expr })
     }
@@ -256,7 +258,9 @@ impl ParsedFields<'_, '_> {
 
         match self.source {
             Some(source) if source == backtrace => {
-                let pattern = self.data.matcher(&[source], &[quote! { source }]);
+                let pattern = self
+                    .data
+                    .matcher(&[self.data.field_indexes[source]], &[quote! { source }]);
                 Some(quote! {
                     #pattern => {
                         // TODO: Use `derive_more::core::error::Error` once `error_in_core` Rust
@@ -267,7 +271,10 @@ impl ParsedFields<'_, '_> {
             }
             Some(source) => {
                 let pattern = self.data.matcher(
-                    &[source, backtrace],
+                    &[
+                        self.data.field_indexes[source],
+                        self.data.field_indexes[backtrace],
+                    ],
                     &[quote! { source }, quote! { backtrace }],
                 );
                 Some(quote! {
@@ -280,7 +287,10 @@ impl ParsedFields<'_, '_> {
                 })
             }
             None => {
-                let pattern = self.data.matcher(&[backtrace], &[quote! { backtrace }]);
+                let pattern = self.data.matcher(
+                    &[self.data.field_indexes[backtrace]],
+                    &[quote! { backtrace }],
+                );
                 Some(quote! {
                     #pattern => {
                         request.provide_ref::<::std::backtrace::Backtrace>(backtrace);
@@ -333,9 +343,9 @@ fn parse_fields<'input, 'state>(
                     _ => unreachable!(),
                 })?;
 
-            parsed_fields.source = parsed_fields
-                .source
-                .or_else(|| infer_source_field(&state.fields, &parsed_fields));
+            parsed_fields.source = parsed_fields.source.or_else(|| {
+                infer_source_field(&parsed_fields.data.fields, &parsed_fields)
+            });
 
             Ok(parsed_fields)
         }
@@ -347,7 +357,7 @@ fn parse_fields<'input, 'state>(
         add_bound_if_type_parameter_used_in_type(
             &mut parsed_fields.bounds,
             type_params,
-            &state.fields[source].ty,
+            parsed_fields.data.field_types[source],
         );
     }
 
